@@ -32,7 +32,10 @@ try:
         elif not any(ch.tag == "skipped" for ch in tc): passed.add(tid)
     mods = {f[:-3].replace("/", ".") for f in files}
     relevant = {t for t in stable if t.split("::")[0].rsplit(".", 1)[0] in mods or t.split("::")[0] in mods}
-    broken = sorted(relevant - passed)
-    print(json.dumps({"id": sid, "files": files, "stable_in_files": len(relevant), "stable_not_passed": len(broken), "examples": broken[:5], "passed": len(passed), "failed": len(failed)}))
+    broken = sorted(relevant & failed)  # stable tests that ran and failed
+    # ids of the stable set that were not collected at all (test_property_roundtrip parametrises over the
+    # dataclasses that happen to be imported, i.e. over which other test files are in the same run)
+    absent = sorted(relevant - passed - failed)
+    print(json.dumps({"id": sid, "files": files, "stable_in_files": len(relevant), "stable_not_passed": len(broken), "examples": broken[:5], "stable_not_collected_in_this_subset": len(absent), "passed": len(passed), "failed": len(failed)}))
 finally:
     subprocess.run(["git", "-C", "/repo", "worktree", "remove", "--force", wt], capture_output=True)
